@@ -34,7 +34,7 @@ mod imp {
     }
 
     /// Extra accepted query shapes the repository corpus does not contain (numbers schema).
-    const EXTRA: [(&str, &str); 12] = [
+    const EXTRA: [(&str, &str); 20] = [
         ("x_tag_twice_in_fold", r#"{ Number(min: 2, max: 4) { value @tag(name: "v") @output multiple(max: 3) @fold { value @output(name: "m") @filter(op: ">", value: ["%v"]) @filter(op: "!=", value: ["%v"]) } } }"#),
         ("x_tag_in_fold_and_nested_fold", r#"{ Number(min: 2, max: 4) { value @tag(name: "v") @output multiple(max: 3) @fold { value @output(name: "m") @filter(op: ">", value: ["%v"]) divisor @fold { value @output(name: "d") @filter(op: "<=", value: ["%v"]) } } } }"#),
         ("x_tag_only_in_nested_fold", r#"{ Number(min: 2, max: 4) { name @output value @tag(name: "v") multiple(max: 3) @fold { value @output(name: "m") divisor @fold { value @output(name: "d") @filter(op: "<=", value: ["%v"]) } } } }"#),
@@ -46,6 +46,14 @@ mod imp {
         ("x_tag_in_two_folds_of_one_vertex", r#"{ Number(min: 2, max: 4) { value @tag(name: "v") @output multiple(max: 3) @fold { value @output(name: "m") @filter(op: ">", value: ["%v"]) } predecessor @fold { value @output(name: "p") @filter(op: "<", value: ["%v"]) } } }"#),
         ("x_two_tags_on_one_property_in_fold", r#"{ Number(min: 2, max: 4) { value @tag(name: "a") @tag(name: "b") @output multiple(max: 3) @fold { value @output(name: "m") @filter(op: ">", value: ["%a"]) @filter(op: "!=", value: ["%b"]) } } }"#),
         ("x_recurse_inside_optional", r#"{ Number(min: 0, max: 2) { value @output predecessor @optional { value @output(name: "p") successor @recurse(depth: 2) { value @output(name: "r") } } } }"#),
+        ("x_variable_wide_then_narrow", r#"{ Number(min: 0, max: 5) { value @output @filter(op: "!=", value: ["$x"]) successor { value @filter(op: "<", value: ["$x"]) } } }"#),
+        ("x_variable_wide_then_fold_count", r#"{ Number(min: 0, max: 5) { value @output @filter(op: "!=", value: ["$x"]) multiple(max: 3) @fold @transform(op: "count") @filter(op: ">=", value: ["$x"]) } }"#),
+        ("x_recurse_implicit_coercion_depth3", r#"{ Number(min: 4, max: 12) { ... on Composite { value @output divisor @recurse(depth: 3) { value @output(name: "d") } } } }"#),
+        ("x_recurse_implicit_and_explicit_coercion", r#"{ Number(min: 4, max: 12) { ... on Composite { value @output divisor @recurse(depth: 2) { ... on Prime { value @output(name: "p") } } } } }"#),
+        ("x_recurse_coercion_in_fold", r#"{ Number(min: 4, max: 9) { ... on Composite { value @output primeFactor @fold { value @output(name: "pf") successor @recurse(depth: 3) { value @output(name: "m") } } } } }"#),
+        ("x_tag_used_by_other_property_same_vertex", r#"{ Number(min: 0, max: 6) { value @output name @tag(name: "n") vowelsInName @filter(op: "not_contains", value: ["%n"]) } }"#),
+        ("x_tag_used_by_same_vertex_and_fold", r#"{ Number(min: 2, max: 6) { name @output value @tag(name: "v") successor { value @tag(name: "s") name @filter(op: "!=", value: ["$nm"]) predecessor { value @filter(op: "<", value: ["%s"]) @filter(op: "=", value: ["%v"]) } } } }"#),
+        ("x_two_properties_tagged_on_inner_vertex", r#"{ Number(min: 2, max: 5) { value @output successor { name @tag(name: "sn") value @tag(name: "sv") successor { name @output(name: "n2") @filter(op: "!=", value: ["%sn"]) value @filter(op: ">", value: ["%sv"]) } } } }"#),
         ("x_variable_used_twice", r#"{ Number(min: 0, max: 5) { value @output @filter(op: ">=", value: ["$x"]) successor { value @filter(op: "!=", value: ["$x"]) } } }"#),
     ];
 
@@ -64,6 +72,7 @@ mod imp {
         for (name, q) in EXTRA {
             let mut arguments = BTreeMap::new();
             if q.contains("$x") { arguments.insert(Arc::from("x"), FieldValue::Int64(2)); }
+            if q.contains("$nm") { arguments.insert(Arc::from("nm"), FieldValue::String(Arc::from("three"))); }
             out.push(Case { name: name.to_string(), schema_name: "numbers".to_string(), query: q.to_string(), arguments });
         }
         out
